@@ -71,15 +71,25 @@ def main():
         # demo with the change
         cmds = demo_cmds(os.path.join(dest, "demo", "RUN.txt"))
         meta["demo_cmds"] = cmds
-        demo_files = []
+        demo_files, demo_sources = [], {}
+        # RUN.txt may place a demo file elsewhere than at its path below demo/ ("cp SEED/demo/x_test.go ./diagnostic/x_test.go")
+        cp_targets = {}
+        for line in open(os.path.join(dest, "demo", "RUN.txt")):
+            parts = line.strip().split()
+            if len(parts) == 3 and parts[0] == "cp" and "/demo/" in parts[1]:
+                base, target = os.path.basename(parts[1]), parts[2]
+                if target.endswith("/" + base) and not os.path.exists(os.path.join(dest, "demo", os.path.normpath(target))):
+                    cp_targets[base] = os.path.normpath(target)
         for root, _, files in os.walk(os.path.join(dest, "demo")):
             for f in files:
                 if f == "RUN.txt":
                     continue
                 rel = os.path.relpath(os.path.join(root, f), os.path.join(dest, "demo"))
+                rel = cp_targets.get(f, rel)
                 os.makedirs(os.path.dirname(os.path.join(wt, rel)) or wt, exist_ok=True)
                 shutil.copy(os.path.join(root, f), os.path.join(wt, rel))
                 demo_files.append(rel)
+                demo_sources[rel] = os.path.join(root, f)
         def run_demo():
             worst, log = 0, ""
             for c in cmds:
@@ -106,7 +116,7 @@ def main():
         # demo without the change
         for rel in demo_files:
             os.makedirs(os.path.dirname(os.path.join(wt, rel)) or wt, exist_ok=True)
-            shutil.copy(os.path.join(dest, "demo", rel), os.path.join(wt, rel))
+            shutil.copy(demo_sources[rel], os.path.join(wt, rel))
         sh(f"git apply -R {dest}/patch.diff", cwd=wt)
         rc, log = run_demo()
         meta["demo_passes_without_change"] = rc == 0
